@@ -114,3 +114,13 @@ Definition chk_client_cut (max : N) (status : Z) (ls : list line) (c : cutpoint)
 Definition eqb_pair (a b : str * str) : bool := eqb_str (fst a) (fst b) && eqb_str (snd a) (snd b).
 Definition chk_v1chat_reassemble (t : ptable) (tools : bool) (o : rout) (obs : list sse) : bool :=
   eqb_list eqb_pair (reassemble (sse_calls obs)) (strip (rec_calls (chat_stream (P_of t) (mkCc true tools) o))).
+
+(** the handlers on the callback trace that the real llm client (or an off-contract mock) actually produced *)
+Definition chk_gen_trace (cfg : gcfg) (t : ctrace) (obs : list nrec) : bool :=
+  eqb_list eqb_nrec (gen_trace_stream cfg t) obs.
+Definition chk_gen_trace_ns (cfg : gcfg) (t : ctrace) (obs : http) : bool :=
+  eqb_http (ns_fold [] zero_msg (gen_trace_stream cfg t)) obs.
+Definition chk_chat_trace (pt : ptable) (tools : bool) (t : ctrace) (obs : list nrec) : bool :=
+  eqb_list eqb_nrec (chat_trace_stream (P_of pt) (mkCc true tools) t) obs.
+Definition chk_chat_trace_ns (pt : ptable) (tools : bool) (t : ctrace) (obs : http) : bool :=
+  eqb_http (chat_ns_final (P_of pt) tools (ns_fold [] zero_msg (chat_trace_stream (P_of pt) (mkCc false tools) t))) obs.
